@@ -806,6 +806,26 @@ func TestC17(t *testing.T) {
 		c.Exhaustive("16-bit INC/DEC of BC, DE, HL, SP with the pair in OAM, started in cycle 5-18 of a mode 2, 1-5 cycles after a DMA transfer was started, the LCD then left on or switched off; OAM compared with the transfer's source 400 cycles later")
 	})
 
+	// the program itself lies in OAM: opcode fetches are OAM reads; OAM watched after every machine cycle
+	c.Rapid("code-in-oam", 8000, 300000, func(rt *rapid.T) {
+		cas := c17CodeGen.Draw(rt, "case")
+		sig, err, fired, in2 := c17RunCode(cas)
+		switch {
+		case !cas.LCDOn:
+			c.Class("code-in-oam/lcd-off", 1)
+		case fired > 0:
+			c.Class("code-in-oam/oam-bug-fired-in-mode2", 1)
+		case in2 > 0:
+			c.Class("code-in-oam/fetches-in-mode2-left-oam-unchanged", 1)
+		default:
+			c.Class("code-in-oam/no-mode2-reached", 1)
+		}
+		c.Case("code-in-oam", vf.Hash(cas), in2 > 0 || !cas.LCDOn, func() interface{} { return cas })
+		if err != nil && !c.Fail("code-in-oam", sig, err.Error(), cas) {
+			rt.Fatalf("%s: %v", sig, err)
+		}
+	})
+
 	c.Rapid("lcd-off", 16000, 600000, func(rt *rapid.T) {
 		cas := c17Case{Scen: "off", RunOn: c17RunOnGen(rt), OAM: c17OAMGen.Draw(rt, "oam"), Steps: rapid.SliceOfN(c17StepGen, 1, 40).Draw(rt, "steps")}
 		for i := range cas.Steps {
